@@ -287,7 +287,7 @@ def run(tier, seed, replay=None):
             except Unmodelled:
                 pass
         try:
-            obs, _ = sc.observe_elem(root, [NP])
+            obs, _ = sc.observe_elem(root, [NP] + list(doc.get("values", [])))
             cases.append(sc.cq_ecase(doc, root, obs))
             metas.append((doc, repr(root)[:200]))
         except Unmodelled:
@@ -346,6 +346,22 @@ TEMPLATES = [
                  "Kid": {"k": "Obj", "name": "Kid", "base": "I", "doc": None, "kw": {}, "props": {}}},
      "order": ["L", "S", "N", "I", "P", "Kid"],
      "root": {"k": "Array", "items": [{"k": "Ref", "name": n} for n in ["L", "S", "N", "I", "P", "Kid"]], "kw": {}}},
+    # a pattern that matches the PYTHON name of a renamed property but not its JSON name: the property is not pattern-matched
+    {"classes": {"Settings": {"k": "Obj", "name": "Settings", "base": None, "doc": None, "kw": {"patternProperties": {"^[a-z]+_[a-z]*$": {"k": "String", "kw": {}}}},
+                              "props": {"class_": {"e": {"k": "String", "kw": {"default": "std"}}, "required": False, "source": "class"},
+                                        "max_size": {"e": {"k": "Integer", "kw": {"default": 10}}, "required": False, "source": "max-size"}}}},
+     "order": ["Settings"], "root": {"k": "Element", "kw": {"patternProperties": {"_": {"k": "Null", "kw": {}}},
+                                                             "properties": {"p_1": {"e": {"k": "Number", "kw": {"default": 2}}, "required": False, "source": "p 1"},
+                                                                            "s": {"e": {"k": "Ref", "name": "Settings"}, "required": False, "source": None}}}}},
+    # objects met in the additionalItems position of an EMPTY tuple `items`, and under a one-member tuple: built by the class, defaults filled in
+    {"classes": {"Entry": {"k": "Obj", "name": "Entry", "base": None, "doc": None, "kw": {},
+                           "props": {"level": {"e": {"k": "Integer", "kw": {"default": 3}}, "required": False, "source": None},
+                                     "class_": {"e": {"k": "String", "kw": {"default": "std"}}, "required": False, "source": "class"}}}},
+     "order": ["Entry"], "root": {"k": "Element", "kw": {"properties": {
+         "rows": {"e": {"k": "Array", "items": [], "kw": {"additionalItems": {"k": "Ref", "name": "Entry"}, "default": [{}]}}, "required": False, "source": None},
+         "more": {"e": {"k": "Element", "kw": {"items": [], "additionalItems": {"k": "Ref", "name": "Entry"}}}, "required": False, "source": None},
+         "one": {"e": {"k": "Array", "items": [{"k": "Ref", "name": "Entry"}], "kw": {"additionalItems": {"k": "Ref", "name": "Entry"}}}, "required": False, "source": None}}}},
+     "values": [{"rows": [{}]}, {"more": [{}, {"level": 1}]}, {"one": [{}, {}]}, {}]},
     {"classes": {}, "order": [], "root": {"k": "Element", "kw": {"patternProperties": {"^a": {"k": "Integer", "kw": {}}},
                                                                    "properties": {"a": {"e": {"k": "Integer", "kw": {"default": 5}}, "required": False, "source": None},
                                                                                   "b": {"e": {"k": "Integer", "kw": {"default": 6}}, "required": False, "source": None}}}}},
